@@ -200,9 +200,17 @@ func (h *harness) concurrentCase(i int) {
 			if hd != nil && r.ri.ok {
 				hc.tab.recordVerify(hd.p.Size, r.ri.p.Size, r.op.proof, hd.p.Root)
 			}
+			// a database refusal (SQLITE_BUSY: two transactions that both read and then want to write)
+			// is an environment event - but only where it can happen: several pooled connections AND
+			// another update in flight at the same time.  Anywhere else class Other on a signed
+			// candidate stays unexplained and is left to the model and the oracle.
 			if r.obs.kind != "panic" && r.obs.class == "EOther" && r.ri.ok && r.ri.verdict[l.id] {
-				r.op.fault = "FBegin"
-				hc.tags["db-fault:update"] = true
+				if dbFaultPossible(mode, r, recs) {
+					r.op.fault = "FBegin"
+					hc.tags["db-fault:update"] = true
+				} else {
+					hc.tags["unexplained-class-other:update"] = true
+				}
 			}
 			// the GetSTH that would follow: derived from the update's own answer
 			g := &obsT{kind: "rsp", class: "ENotFound"}
@@ -237,6 +245,19 @@ func (h *harness) concurrentCase(i int) {
 	}
 	hc.extraIn = map[string]interface{}{"schedule": sched, "linearised": true}
 	h.emitHist(hc)
+}
+
+// dbFaultPossible: the instance has a connection pool and another update overlapped r in real time.
+func dbFaultPossible(mode string, r *rec, all []*rec) bool {
+	if mode != "file-pool" && mode != "file-pool-wal" {
+		return false
+	}
+	for _, x := range all {
+		if x != r && x.op.kind == "update" && x.start < r.end && r.start < x.end {
+			return true
+		}
+	}
+	return false
 }
 
 // linearise orders the operations on ONE log so that the sequence explains every answer:
